@@ -71,7 +71,16 @@ func arrayDefineOwnProperty(obj *object, name string, descriptor property, throw
 		if !isValue {
 			panic(obj.runtime.panicTypeError("Array.DefineOwnProperty %q is not a value", descriptor.value))
 		}
-		newLength := arrayUint32(obj.runtime, newLengthValue)
+		var newLength uint32
+		if newLengthValue.IsObject() {
+			// ToUint32(Desc.[[Value]]) and ToNumber(Desc.[[Value]]) each convert the object.
+			newLength = toUint32(newLengthValue)
+			if float64(newLength) != newLengthValue.float64() {
+				panic(obj.runtime.panicRangeError())
+			}
+		} else {
+			newLength = arrayUint32(obj.runtime, newLengthValue)
+		}
 		descriptor.value = uint32Value(newLength)
 		if newLength >= length {
 			return objectDefineOwnProperty(obj, name, descriptor, throw)
